@@ -7,32 +7,58 @@ set_option linter.unusedVariables false
 namespace Usual.C01
 open Finset
 
+/-- the primary parent of a live chunk -/
+def parentOf (s : State) (x : Nat) : Option Nat := (s.get x).bind (·.parent)
+
+theorem parentOf_eq {s : State} {x : Nat} {xb : Obj} (h : s.get x = some xb) : parentOf s x = xb.parent := by
+  simp [parentOf, h]
+
+theorem parentOf_some {s : State} {x p : Nat} (h : parentOf s x = some p) :
+    ∃ xb, s.get x = some xb ∧ xb.parent = some p := by
+  unfold parentOf at h
+  cases hx : s.get x with
+  | none => rw [hx] at h; cases h
+  | some xb => rw [hx] at h; exact ⟨xb, rfl, h⟩
+
 /-- `a` is a proper ancestor of `x` along parent pointers -/
 inductive Anc (s : State) : Nat → Nat → Prop
-  | parent {x : Nat} {xb : Obj} {p : Nat} : s.get x = some xb → xb.parent = some p → Anc s p x
-  | up {x : Nat} {xb : Obj} {p a : Nat} : s.get x = some xb → xb.parent = some p → Anc s a p → Anc s a x
+  | parent {x p : Nat} : parentOf s x = some p → Anc s p x
+  | up {x p a : Nat} : parentOf s x = some p → Anc s a p → Anc s a x
 
 theorem Anc.rank {rk : Nat → Nat} {s : State} (wr : Ranked rk s) {a x : Nat} (h : Anc s a x) : rk a < rk x := by
   induction h with
-  | parent hx hp => exact wr.parentLt _ _ _ hx hp
-  | up hx hp _ ih => have := wr.parentLt _ _ _ hx hp; omega
+  | parent hp => obtain ⟨xb, hx, hpp⟩ := parentOf_some hp; exact wr.parentLt _ _ _ hx hpp
+  | up hp _ ih => obtain ⟨xb, hx, hpp⟩ := parentOf_some hp; have := wr.parentLt _ _ _ hx hpp; omega
 
 theorem Anc.live {s : State} {a x : Nat} (h : Anc s a x) : ∃ xb, s.get x = some xb := by
   cases h with
-  | parent hx _ => exact ⟨_, hx⟩
-  | up hx _ _ => exact ⟨_, hx⟩
+  | parent hp => obtain ⟨xb, hx, -⟩ := parentOf_some hp; exact ⟨xb, hx⟩
+  | up hp _ => obtain ⟨xb, hx, -⟩ := parentOf_some hp; exact ⟨xb, hx⟩
 
 /-- the first step of an ancestor chain -/
 theorem Anc.cases_parent {s : State} {a x : Nat} (h : Anc s a x) :
-    ∃ xb p, s.get x = some xb ∧ xb.parent = some p ∧ (p = a ∨ Anc s a p) := by
+    ∃ p, parentOf s x = some p ∧ (p = a ∨ Anc s a p) := by
   cases h with
-  | parent hx hp => exact ⟨_, _, hx, hp, Or.inl rfl⟩
-  | up hx hp h' => exact ⟨_, _, hx, hp, Or.inr h'⟩
+  | parent hp => exact ⟨_, hp, Or.inl rfl⟩
+  | up hp h' => exact ⟨_, hp, Or.inr h'⟩
 
 theorem Anc.trans {s : State} {a b x : Nat} (h1 : Anc s a b) (h2 : Anc s b x) : Anc s a x := by
   induction h2 with
-  | parent hx hp => exact Anc.up hx hp h1
-  | up hx hp _ ih => exact Anc.up hx hp (ih h1)
+  | parent hp => exact Anc.up hp h1
+  | up hp _ ih => exact Anc.up hp (ih h1)
+
+/-- ancestry only depends on the parent pointers -/
+theorem Anc.congr {s s' : State} (h : ∀ x, parentOf s' x = parentOf s x) {a x : Nat} :
+    Anc s' a x ↔ Anc s a x := by
+  constructor
+  · intro ha
+    induction ha with
+    | parent hp => exact Anc.parent (by rw [← h]; exact hp)
+    | up hp _ ih => exact Anc.up (by rw [← h]; exact hp) ih
+  · intro ha
+    induction ha with
+    | parent hp => exact Anc.parent (by rw [h]; exact hp)
+    | up hp _ ih => exact Anc.up (by rw [h]; exact hp) ih
 
 /-- what a chunk is charged: `total_size(size)` -/
 def chargeAt (s : State) (x : Nat) : Nat :=
@@ -60,5 +86,219 @@ structure FlagsInv (s : State) : Prop where
       s.get ctx = some cb → cb.hasLim = true
   chunkUnique : ∀ (l1 l2 : Nat) b1 b2 ctx, s.get l1 = some b1 → s.get l2 = some b2 → b1.kind = .limit →
       b2.kind = .limit → b1.parent = some ctx → b2.parent = some ctx → l1 = l2
+
+
+/-- the climb of `apply_memlimit` ended before the fuel did -/
+def climbOK (cfg : Cfg) : Nat → State → Option Id → Bool
+  | 0, _, _ => false
+  | f + 1, s, t =>
+    match t with
+    | none => true
+    | some t =>
+      match s.get t with
+      | none => true
+      | some o =>
+        if !o.useLim then true
+        else if !o.hasLim then climbOK cfg f s o.parent
+        else
+          match findLim s o.children with
+          | none => if cfg.fixGone then climbOK cfg f s o.parent else true
+          | some l =>
+            match s.get l with
+            | none => true
+            | some _ => climbOK cfg f s o.parent
+
+theorem applyLim_climbOK (cfg : Cfg) (f : Nat) (s : State) (t : Option Id) (d : Int) (force : Bool) (s' : State)
+    (h : applyLim cfg f s t d force = some s') (hoof : s'.oof = false) : climbOK cfg f s t = true := by
+  induction f generalizing t s' with
+  | zero => simp only [applyLim] at h; cases h; simp at hoof
+  | succ f ih =>
+    simp only [applyLim] at h
+    simp only [climbOK]
+    cases t with
+    | none => rfl
+    | some t =>
+      simp only [] at h ⊢
+      cases ht : s.get t with
+      | none => rfl
+      | some o =>
+        simp only [ht] at h ⊢
+        by_cases hu : o.useLim = true
+        case neg =>
+          have hu' : o.useLim = false := by simpa using hu
+          simp [hu']
+        simp only [hu, Bool.not_true, Bool.false_eq_true, if_false] at h ⊢
+        by_cases hh : o.hasLim = true
+        case neg =>
+          have hh' : o.hasLim = false := by simpa using hh
+          simp only [hh', Bool.not_false, if_true] at h ⊢
+          exact ih _ _ h hoof
+        simp only [hh, Bool.not_true, Bool.false_eq_true, if_false] at h ⊢
+        cases hl : findLim s o.children with
+        | none =>
+          simp only [hl] at h ⊢
+          split at h
+          · rename_i hg; simp only [hg, if_true]; exact ih _ _ h hoof
+          · rename_i hg; simp [hg]
+        | some l =>
+          simp only [hl] at h ⊢
+          cases hlb : s.get l with
+          | none => rfl
+          | some lb =>
+            simp only [hlb] at h ⊢
+            split at h
+            · cases h
+            · cases hrec : applyLim cfg f s o.parent d force with
+              | none => simp only [hrec] at h; cases h
+              | some s'' =>
+                simp only [hrec, Option.some.injEq] at h
+                subst h
+                exact ih _ _ hrec (by simpa using hoof)
+
+/-- the chunks visited from `p` are chunks of `p` or of its ancestors -/
+theorem limitsAbove_anc {rk : Nat → Nat} {s : State} (i : Inv rk s) (cfg : Cfg) (f : Nat) (p : Nat) (l : Id)
+    (h : l ∈ limitsAbove cfg f s (some p)) :
+    ∃ lb q, s.get l = some lb ∧ lb.kind = .limit ∧ lb.parent = some q ∧ (q = p ∨ Anc s q p) := by
+  induction f generalizing p with
+  | zero => simp [limitsAbove] at h
+  | succ f ih =>
+    simp only [limitsAbove] at h
+    cases hp : s.get p with
+    | none => simp [hp] at h
+    | some o =>
+      simp only [hp] at h
+      have hup : l ∈ limitsAbove cfg f s o.parent →
+          ∃ lb q, s.get l = some lb ∧ lb.kind = .limit ∧ lb.parent = some q ∧ (q = p ∨ Anc s q p) := by
+        intro hm
+        cases hpar : o.parent with
+        | none =>
+          rw [hpar] at hm
+          cases f with
+          | zero => simp [limitsAbove] at hm
+          | succ f => simp [limitsAbove] at hm
+        | some pp =>
+          rw [hpar] at hm
+          obtain ⟨lb, q, a1, a2, a3, a4⟩ := ih pp hm
+          refine ⟨lb, q, a1, a2, a3, Or.inr ?_⟩
+          rcases a4 with rfl | a4
+          · exact Anc.parent (by rw [parentOf_eq hp]; exact hpar)
+          · exact Anc.up (by rw [parentOf_eq hp]; exact hpar) a4
+      split at h
+      · cases h
+      · split at h
+        · exact hup h
+        · split at h
+          · split at h
+            · exact hup h
+            · cases h
+          · rename_i l' hl'
+            split at h
+            · cases h
+            · simp only [List.mem_cons] at h
+              rcases h with rfl | h
+              · obtain ⟨hm, lb, hlb, hlk⟩ := findLim_spec s _ l hl'
+                obtain ⟨co, hco, hcp, -⟩ := i.wf.childBack p o l hp hm
+                have h3 : co = lb := Option.some.inj (hco.symm.trans hlb)
+                exact ⟨lb, p, hlb, hlk, h3 ▸ hcp, Or.inl rfl⟩
+              · exact hup h
+
+theorem findLim_some_of_mem (s : State) (cs : List Id) (l : Id) (lb : Obj) (hm : l ∈ cs)
+    (hl : s.get l = some lb) (hk : lb.kind = .limit) : ∃ l', findLim s cs = some l' := by
+  induction cs with
+  | nil => cases hm
+  | cons c cs ih =>
+    simp only [findLim]
+    cases hc : s.get c with
+    | none =>
+      simp only []
+      rcases List.mem_cons.1 hm with rfl | hm'
+      · rw [hl] at hc; cases hc
+      · exact ih hm'
+    | some co =>
+      simp only []
+      by_cases hlim : isLimit co = true
+      · exact ⟨c, by simp [hlim]⟩
+      · simp only [hlim, if_false]
+        rcases List.mem_cons.1 hm with rfl | hm'
+        · rw [hl] at hc; cases hc; simp [isLimit, hk] at hlim
+        · exact ih hm'
+
+/-- USE is inherited all the way down a parent chain -/
+theorem use_down {s : State} (w : WFp s) (fl : FlagsInv s) {q p : Nat} (h : Anc s q p) :
+    ∀ (qb pb : Obj), s.get q = some qb → s.get p = some pb → qb.useLim = true → pb.kind = .plain →
+      pb.useLim = true := by
+  induction h with
+  | @parent x pp hpo =>
+    intro qb pb hq hp hu hk
+    have hpar : pb.parent = some pp := by rw [← parentOf_eq hp]; exact hpo
+    exact fl.inherit _ _ _ _ hp hpar hq hu (by rw [hk]; simp)
+  | @up x pp a hpo hanc ih =>
+    intro qb pb hq hp hu hk
+    have hpar : pb.parent = some pp := by rw [← parentOf_eq hp]; exact hpo
+    obtain ⟨ppb, hppb, hppk, -⟩ := w.parentLive _ _ _ hp hpar
+    have := ih qb ppb hq hppb hu hppk
+    exact fl.inherit _ _ _ _ hp hpar hppb this (by rw [hk]; simp)
+
+/-- conversely, every chunk of `p` or of an ancestor of `p` is visited (repaired code) -/
+theorem limitsAbove_of_anc {rk : Nat → Nat} {s : State} (i : Inv rk s) (fl : FlagsInv s) (cfg : Cfg)
+    (hfix : cfg.fixGone = true) (f : Nat) (p : Nat) (pb : Obj) (hp : s.get p = some pb) (hpk : pb.kind = .plain)
+    (hc : climbOK cfg f s (some p) = true)
+    (l : Nat) (lb : Obj) (q : Nat) (hl : s.get l = some lb) (hlk : lb.kind = .limit) (hlp : lb.parent = some q)
+    (hq : q = p ∨ Anc s q p) : l ∈ limitsAbove cfg f s (some p) := by
+  induction f generalizing p pb with
+  | zero => simp [climbOK] at hc
+  | succ f ih =>
+    simp only [climbOK, hp] at hc
+    simp only [limitsAbove, hp]
+    obtain ⟨qb, hqb, hqk, hqm⟩ := i.wf.parentLive l lb q hl hlp
+    have hlm : l ∈ qb.children := by
+      rcases hqm with h | h
+      · exact h
+      · have := (i.wf.leaf l lb hl (by rw [hlk]; simp)).2.2.2; rw [this] at h; cases h
+    have hqh := fl.chunkHas l lb q qb hl hlk hlp hqb
+    have hqu := fl.hasUse q qb hqb hqh
+    have hpu : pb.useLim = true := by
+      rcases hq with rfl | hq
+      · rw [hp] at hqb; cases hqb; exact hqu
+      · exact use_down i.wf fl hq qb pb hqb hp hqu hpk
+    simp only [hpu, Bool.not_true, Bool.false_eq_true, if_false] at hc ⊢
+    -- going on to the parent
+    have hup : (q ≠ p) → climbOK cfg f s pb.parent = true → l ∈ limitsAbove cfg f s pb.parent := by
+      intro hne hc'
+      rcases hq with rfl | hq
+      · exact absurd rfl hne
+      · obtain ⟨pp, h2', h3⟩ := hq.cases_parent
+        have h2 : pb.parent = some pp := by rw [← parentOf_eq hp]; exact h2'
+        rw [h2] at hc' ⊢
+        obtain ⟨ppb, hppb, hppk, -⟩ := i.wf.parentLive p pb pp hp h2
+        exact ih pp ppb hppb hppk hc' (h3.imp Eq.symm id)
+    by_cases hh : pb.hasLim = true
+    case neg =>
+      have hh' : pb.hasLim = false := by simpa using hh
+      simp only [hh', Bool.not_false, if_true] at hc ⊢
+      have hne : q ≠ p := by
+        intro e; subst e; rw [hp] at hqb; cases hqb; rw [hqh] at hh'; cases hh'
+      exact hup hne hc
+    simp only [hh, Bool.not_true, Bool.false_eq_true, if_false] at hc ⊢
+    cases hfl : findLim s pb.children with
+    | none =>
+      simp only [hfl, hfix, if_true] at hc ⊢
+      have hne : q ≠ p := by
+        intro e; subst e; rw [hp] at hqb; cases hqb
+        obtain ⟨l', hl'⟩ := findLim_some_of_mem s _ l lb hlm hl hlk
+        rw [hfl] at hl'; cases hl'
+      exact hup hne hc
+    | some l' =>
+      simp only [hfl] at hc ⊢
+      obtain ⟨hm', lb', hlb', hlk'⟩ := findLim_spec s _ l' hfl
+      simp only [hlb'] at hc ⊢
+      by_cases hqp : q = p
+      · subst hqp
+        obtain ⟨co, hco, hcp, -⟩ := i.wf.childBack q pb l' hp hm'
+        have h3 : co = lb' := Option.some.inj (hco.symm.trans hlb')
+        have := fl.chunkUnique l l' lb lb' q hl hlb' hlk hlk' hlp (h3 ▸ hcp)
+        subst this
+        exact List.mem_cons_self
+      · exact List.mem_cons_of_mem _ (hup hqp hc)
 
 end Usual.C01
